@@ -418,25 +418,25 @@ Section StepBars4.
         destruct (N.eqb_spec x b) as [->|Hn]; [|auto].
         destruct (finish_upd_keeps (b_on_finish (get_bar s b)) (get_bar s b)) as [F1 F2]. rewrite F1. auto.
     - (* OInsert *)
-      unfold op_ok in Hk. cbn [op_bar] in Hk. apply andb_prop in Hk. destruct Hk as [Ha Hk].
-      apply andb_prop in Hk. destruct Hk as [Hnm _]. apply negb_true_iff in Hnm.
+      unfold op_ok in Hk. cbn [op_bar] in Hk. apply andb_prop in Hk. destruct Hk as [Ha _].
       pose proof (alive_inrange s b Ha) as Hl.
       intros x. unfold logic_after, slot_after, insert_slot. cbn [op_draw silent_change is_drop_of negb].
       fold (bloc_iloc s loc). rewrite andb_true_r.
-      destruct (bloc_iloc s loc) as [l|]; [|cbn [fst]; destruct (N.eqb x b); auto].
-      destruct (ms_insert (s_mp s) l) as [[m1 idx]|]; cbn [option_map snd fst]; [|destruct (N.eqb x b); auto].
-      unfold bar_set_target. change (get_bar (set_s_mp s m1) b) with (get_bar s b).
-      unfold is_member in Hnm.
-      assert (E : forall s1, s_bars s1 = s_bars s ->
+      assert (E : forall idx s1, s_bars s1 = s_bars s ->
                   let s' := upd_bar s1 b (fun y => set_b_target y (TMulti idx)) in
                   alive s' x = alive s x
                   /\ mslot (get_bar s' x) = (if (x =? b) then Some idx else mslot (get_bar s x))
                   /\ logic (get_bar s' x) = logic (get_bar s x)).
-      { intros s1 Eb s'. assert (G : forall y, get_bar s1 y = get_bar s y) by (intros y; unfold get_bar; rewrite Eb; reflexivity).
+      { intros idx s1 Eb s'. assert (G : forall y, get_bar s1 y = get_bar s y) by (intros y; unfold get_bar; rewrite Eb; reflexivity).
         unfold alive, s'. destruct (N.eqb_spec x b) as [->|Hn].
         - rewrite get_upd_same by (rewrite Eb; exact Hl). rewrite G. auto.
         - rewrite get_upd_other by congruence. rewrite G. auto. }
-      destruct (b_target (get_bar s b)); try discriminate Hnm; cbn [fst]; apply E; reflexivity.
+      destruct (b_target (get_bar s b)) as [|tg|idx0] eqn:Ht;
+        [| |cbn [fst]; destruct (N.eqb x b); auto];
+        (destruct (bloc_iloc s loc) as [l|]; [|cbn [fst]; destruct (N.eqb x b); auto];
+         destruct (ms_insert (s_mp s) l) as [[m1 idx]|]; cbn [option_map snd fst]; [|destruct (N.eqb x b); auto];
+         unfold bar_set_target; change (get_bar (set_s_mp s m1) b) with (get_bar s b); rewrite Ht;
+         cbn [fst]; apply E; reflexivity).
     - (* ORemove *)
       pose proof (alive_inrange s b (Hal b eq_refl)) as Hl.
       intros x. unfold logic_after, slot_after. cbn [op_draw silent_change is_drop_of negb]. rewrite andb_true_r.
@@ -645,8 +645,10 @@ Section Shapes2.
     - destruct (b_target (get_bar s b)); repeat constructor.
     - destruct (finished (get_bar s b)); [|discriminate Hd]. cbn [app].
       destruct (b_target (get_bar s b)); repeat constructor.
-    - unfold insert_slot in Hi. fold (bloc_iloc s loc). destruct (bloc_iloc s loc) as [l|]; [|constructor].
-      destruct (ms_insert (s_mp s) l) as [[m1 idx]|]; [discriminate Hi | constructor].
+    - unfold insert_slot in Hi. fold (bloc_iloc s loc).
+      destruct (b_target (get_bar s b)); [| |constructor];
+        (destruct (bloc_iloc s loc) as [l|]; [|constructor];
+         destruct (ms_insert (s_mp s) l) as [[m1 idx]|]; [discriminate Hi | constructor]).
     - destruct (b_target (get_bar s b)); repeat constructor.
   Qed.
 
@@ -655,13 +657,12 @@ Section Shapes2.
     exists l m1, bloc_iloc s loc = Some l /\ ms_insert (s_mp s) l = Some (m1, idx)
                  /\ op_actions W s now (OInsert loc b) = [AInsert l].
   Proof.
-    intros Hk Hi. unfold op_ok in Hk. cbn [op_bar] in Hk. apply andb_prop in Hk. destruct Hk as [_ Hk].
-    apply andb_prop in Hk. destruct Hk as [Hnm _]. apply negb_true_iff in Hnm. unfold is_member in Hnm.
+    intros Hk Hi.
     unfold insert_slot in Hi. cbn [op_actions]. fold (bloc_iloc s loc).
-    destruct (bloc_iloc s loc) as [l|]; [|discriminate Hi].
-    destruct (ms_insert (s_mp s) l) as [[m1 idx']|] eqn:Hm; [|discriminate Hi]. cbn in Hi. injection Hi as ->.
-    exists l, m1. split; [reflexivity|]. split; [exact Hm|].
-    destruct (b_target (get_bar s b)); try discriminate Hnm; reflexivity.
+    destruct (b_target (get_bar s b)); [| |discriminate Hi];
+      (destruct (bloc_iloc s loc) as [l|]; [|discriminate Hi];
+       destruct (ms_insert (s_mp s) l) as [[m1 idx']|] eqn:Hm; [|discriminate Hi]; cbn in Hi; injection Hi as ->;
+       exists l, m1; split; [reflexivity|]; split; [exact Hm|]; reflexivity).
   Qed.
 End Shapes2.
 
@@ -764,9 +765,8 @@ Section StepInv2.
     assert (Emp : s_mp (step_sys s now (OInsert loc b)) = m1).
     { rewrite step_mp_eq, Sh. cbn [mp_run mp_exec1]. rewrite Hins. reflexivity. }
     assert (Hnm : mslot (get_bar s b) = None).
-    { unfold op_ok in Hk. cbn [op_bar] in Hk. apply andb_prop in Hk. destruct Hk as [_ Hk].
-      apply andb_prop in Hk. destruct Hk as [Hnm _]. apply negb_true_iff in Hnm. unfold is_member in Hnm.
-      unfold mslot. destruct (b_target (get_bar s b)); try reflexivity. discriminate. }
+    { pose proof Hi as Hi2. unfold insert_slot in Hi2.
+      unfold mslot. destruct (b_target (get_bar s b)); try reflexivity. discriminate Hi2. }
     assert (Hsl : forall x, mslot (get_bar (step_sys s now (OInsert loc b)) x)
                             = if N.eqb x b then Some idx else mslot (get_bar s x)).
     { intros x. destruct (BF x) as (_ & B & _). rewrite B. unfold slot_after. rewrite Hi. reflexivity. }
@@ -1698,11 +1698,10 @@ Section Persist.
     - apply lat_step_inv; assumption.
     - destruct (step_bar_facts W H fails s now o Hk b) as (_ & B & _). rewrite B. unfold slot_after.
       destruct o; try exact Hm.
-      + (* OInsert: b is a member already, so the inserted bar is another one *)
-        destruct (N.eqb_spec b b0) as [->|Hn]; [|exact Hm]. exfalso.
-        unfold op_ok in Hk. cbn [op_bar] in Hk. apply andb_prop in Hk. destruct Hk as [_ Hk].
-        apply andb_prop in Hk. destruct Hk as [Hnm _]. apply negb_true_iff in Hnm. unfold is_member in Hnm.
-        apply mslot_Some in Hm. rewrite Hm in Hnm. discriminate.
+      + (* OInsert *)
+        destruct (N.eqb_spec b b0) as [->|Hn]; [|exact Hm].
+        (* b0 is a member already: the call has no effect (fix bee77c9) *)
+        unfold insert_slot. pose proof Hm as Hm2. apply mslot_Some in Hm2. rewrite Hm2. exact Hm.
       + destruct (N.eqb_spec b b0) as [->|Hn]; [congruence | exact Hm].
     - subst b. apply lat_step_slot_keep; assumption.
   Qed.
